@@ -39,8 +39,11 @@ def worker_main(pid, tier, seed, shard_file, out_file):
     try:
         res = mon.run_shard(spec, tier, seed)
     except BaseException as e:  # harness failure: inconclusive, never a verdict
+        decided = [r for r in Result.LIVE if r.violations]
         res = Result()
         res.inconclusive.append(f'shard {spec} crashed in harness: {type(e).__name__}: {e}\n' + traceback.format_exc()[-1500:])
+        for r in decided[:1]:           # what the oracle had already decided before the harness failed is not lost
+            res.violations = list(r.violations)
     with open(out_file, 'w') as f:
         json.dump(res.to_json(), f, default=str)
 
